@@ -11,7 +11,7 @@ import warnings
 
 import numpy as np
 
-from ..core import (blit, err_class, fkey, listlit, natlist, natlit, noise_num, rank_keys, vlist, zlist)
+from ..core import (blit, err_class, fkey, listlit, natlist, natlit, noise_num, rank_keys, relayout, vlist, zlist)
 
 IMPORTS = "From V Require Import Base.OptOrder Model.Sel Harness.Run Harness.SelCheck."
 NAN, INF = float("nan"), float("inf")
@@ -117,6 +117,7 @@ def gen_arrays(ctx, tier):
         pool = np.concatenate([base, rng.choice(near, size=nvals), rng.choice(ALPHA_ARG, size=2)])
         a = rng.choice(pool, size=shape)
         a[rng.random(shape) < rng.choice([0.0, 0.2, 0.7])] = np.nan
+        a = relayout(a, int(rng.integers(0, 4)))
         yield a, f"rand{nd}d"
 
 
@@ -137,6 +138,7 @@ def gen_batches(ctx, tier):
         pool = np.concatenate([base, rng.choice(near, size=nvals), [0.0, -0.0]])
         u = rng.choice(pool, size=shape)
         u[rng.random(shape) < rng.choice([0.0, 0.3, 0.8])] = np.nan
+        u = relayout(u, int(rng.integers(0, 4)))
         if rng.random() < 0.05:
             u.ravel()[int(rng.integers(u.size))] = rng.choice([INF, -INF])
         bs = int(rng.choice([1, 2, 3, max(1, u.size // 2), u.size + 3]))
@@ -211,7 +213,7 @@ def run(ctx):
     rng = ctx.rng("axis")
     for _ in range(150 if ctx.is_quick else 2000):
         shape = (int(rng.integers(1, 6)), int(rng.integers(1, 6)))
-        a = rng.choice([NAN, -INF, -1.0, -0.0, 0.0, 1.0, INF, 0.5], size=shape)
+        a = relayout(rng.choice([NAN, -INF, -1.0, -0.0, 0.0, 1.0, INF, 0.5], size=shape), int(rng.integers(0, 4)))
         # all-NaN slices make numpy warn and return 0; keep them, the model returns 0 too
         axis = int(rng.integers(0, 2))
         is_max = bool(rng.integers(0, 2))
